@@ -210,8 +210,10 @@ func writeMessageFieldUnmarshaller(name string, typ FieldType, w *iohelp.ErrorWr
 		if typ.Array.Simple == typeByte {
 			writeLineWithTabs(w, "r.Read(%RECV)", depth, name)
 		} else {
-			writeLineWithTabs(w, "for i := range %RECV {", depth, name)
-			writeMessageFieldUnmarshaller("("+name+")[i]", *typ.Array, w, settings, depth+1)
+			// nested arrays need one index each
+			iName := depthName("i", depth)
+			writeLineWithTabs(w, "for "+iName+" := range %RECV {", depth, name)
+			writeMessageFieldUnmarshaller("("+name+")["+iName+"]", *typ.Array, w, settings, depth+1)
 			writeLineWithTabs(w, "}", depth)
 		}
 	} else if typ.Map != nil {
